@@ -66,8 +66,15 @@ def read_array(sched):
     return out
 
 
-def replay(beh, max_counter, rdiv, nhandlers, tolerant):
-    """Return None if the real code follows the behaviour, else a dict describing the first mismatch."""
+def replay(beh, max_counter, rdiv, nhandlers, tolerant, drift):
+    """Return None if the real code follows the behaviour, else a dict describing the first mismatch.
+
+    Two kinds of comparison.  What the property (C06) talks about -- which error a call raises, that the returned handler
+    has a live event and that its time is the model's minimal time -- is a mismatch.  The internal representation (C array
+    entry by entry, deletion counters, last returned time) is compared as well, but a difference there only means that
+    Heap.tla no longer transcribes the code: it is appended to `drift` (reported as a note) and the internals are not
+    compared for the rest of the behaviour."""
+    internals = True
     off = UINT_MAX - max_counter
     handlers = {i: Handler(i) for i in range(1, nhandlers + 1)}
     heap = HeapScheduler()
@@ -98,12 +105,16 @@ def replay(beh, max_counter, rdiv, nhandlers, tolerant):
                 finite = [v for v in live.values() if v is not None and v[0] != 1000000]
                 try:
                     ret = heap.get_succeeding_event()
-                    got = ("none", ret.ident)
+                    got = ("none", live[ret.ident])
+                    if internals and ret.ident != h:
+                        drift.append(dict(step=step, what="tie broken differently: handler %d returned, model %d" % (ret.ident, h)))
+                        internals = False
                 except SchedulerError as e:
                     got = ("empty" if "does not contain any events" in str(e) else "decreasing", None)
-                want = (err, h if err == "none" else None)
+                want = (err, tuple(t) if err == "none" else None)
                 if got != want:
-                    return dict(step=step, what="HeapScheduler.get_succeeding_event", got=got, want=want)
+                    return dict(step=step, what="HeapScheduler.get_succeeding_event (live time of the returned handler)",
+                                got=got, want=want)
                 if finite:
                     try:
                         lret = lst.get_succeeding_event()
@@ -120,28 +131,36 @@ def replay(beh, max_counter, rdiv, nhandlers, tolerant):
             got_err = "%s: %s" % (type(e).__name__, e)
         if got_err:
             return dict(step=step, what="unexpected exception in " + name, got=got_err)
-        # --- compare the abstract state projected from the real object
+        if not internals:
+            continue
+        # --- compare the representation projected from the real object (transcription level)
         arr = read_array(heap)
         era = obs["era"]
         want_arr = [(tq(q), tr(r, rdiv), hh, c + (off if era[hh - 1] == 0 else 0)) for q, r, hh, c in obs["arr"]]
         # entries of a handler written in era 0 keep their era-0 counters until deleted by the reset; the reset deletes
         # them all, so within one array all entries of a handler are of its current era.
         if arr != want_arr:
-            return dict(step=step, what="C array after " + name, got=arr, want=want_arr)
+            drift.append(dict(step=step, what="C array after " + name, got=arr, want=want_arr))
+            internals = False
+            continue
         mv = [heap._minimal_valid_counter[handlers[i]] for i in sorted(handlers)]
         want_mv = [m + (off if era[i] == 0 else 0) for i, m in enumerate(obs["mv"])]
         if mv != want_mv:
-            return dict(step=step, what="_minimal_valid_counter after " + name, got=mv, want=want_mv)
+            drift.append(dict(step=step, what="_minimal_valid_counter after " + name, got=mv, want=want_mv))
+            internals = False
+            continue
         last = heap._last_returned_event[0]
         wl = real_time(obs["last"], rdiv)
         if not (last.quotient == wl.quotient and last.remainder == wl.remainder):
-            return dict(step=step, what="_last_returned_event after " + name, got=repr(last), want=repr(wl))
+            drift.append(dict(step=step, what="_last_returned_event after " + name, got=repr(last), want=repr(wl)))
+            internals = False
     return None
 
 
 def main():
     spec = json.load(open(sys.argv[1]))
     fails = []
+    drifts = []
     steps = 0
     kinds = {}
     for idx, beh in enumerate(spec["behaviours"]):
@@ -151,7 +170,10 @@ def main():
             kinds[k] = kinds.get(k, 0) + 1
         global FINE
         for FINE in (False, True):
-            r = replay(beh, spec["max_counter"], spec["rdiv"], spec["nhandlers"], spec.get("tolerant", False))
+            drift = []
+            r = replay(beh, spec["max_counter"], spec["rdiv"], spec["nhandlers"], spec.get("tolerant", False), drift)
+            if drift and len(drifts) < 3:
+                drifts.append(dict(behaviour=idx, fine=FINE, **drift[0]))
             if r is not None:
                 r["behaviour"] = idx
                 if FINE:
@@ -161,7 +183,7 @@ def main():
         FINE = False
         if len(fails) >= 5:
             break
-    json.dump(dict(behaviours=len(spec["behaviours"]), steps=steps, kinds=kinds, fails=fails), sys.stdout)
+    json.dump(dict(behaviours=len(spec["behaviours"]), steps=steps, kinds=kinds, fails=fails, drift=drifts), sys.stdout)
 
 
 if __name__ == "__main__":
